@@ -80,9 +80,12 @@ def correspond(unit, n, seed, rep, biased=False, label=None, check_model=True):
         for k, ch in enumerate(C.chunks(idx, unit.per_file)):
             body = ";\n".join(unit.emit(cases[i], outs[i]) for i in ch)
             txt = unit.header + "\nDefinition cases : list (%s) := [\n%s\n].\n" % (unit.casetype, body)
-            txt += "Eval vm_compute in (%s 0%%nat cases).\n" % unit.failing
-            if unit.tagfn:
-                txt += "Eval vm_compute in (map (%s) cases).\n" % unit.tagfn
+            if getattr(unit, "both", None):
+                txt += "Eval vm_compute in (map (%s) cases).\n" % unit.both
+            else:
+                txt += "Eval vm_compute in (%s 0%%nat cases).\n" % unit.failing
+                if unit.tagfn:
+                    txt += "Eval vm_compute in (map (%s) cases).\n" % unit.tagfn
             files.append(("%s_%s%d_%d" % (unit.name, "b" if biased else "n", seed % 100000, k), txt, ch))
         results = C.eval_case_files([(n_, t_) for n_, t_, _ in files])
         for n_, _, ch in files:
@@ -91,11 +94,17 @@ def correspond(unit, n, seed, rep, biased=False, label=None, check_model=True):
                 res["ok"] = False
                 res["failing"].append({"file": n_, "error": log[-1500:]})
                 continue
-            bad = C.parse_natlist(vals[0])
+            if getattr(unit, "both", None):
+                codes = C.parse_natlist(vals[0])
+                bad = [j for j, c_ in enumerate(codes) if c_ % 2 == 1]
+                for j, c_ in zip(ch, codes):
+                    tags[j] = c_ // 2
+            else:
+                bad = C.parse_natlist(vals[0])
             for j in bad:
                 res["ok"] = False
                 res["failing"].append({"case": cases[ch[j]], "impl": outs[ch[j]]})
-            if unit.tagfn and len(vals) > 1:
+            if unit.tagfn and len(vals) > 1 and not getattr(unit, "both", None):
                 tg = C.parse_natlist(vals[1])
                 for j, t in zip(ch, tg):
                     tags[j] = t
